@@ -9,11 +9,11 @@
 (* of the harness validates it against real CPython: each observation      *)
 (* carries the outcome of really executing the call.                       *)
 (*                                                                         *)
-(* A signature is a sequence of parameters [kind, dflt]:                   *)
+(* A signature is a sequence of parameters [kind, name, dflt]:             *)
 (*    kind "po" positional-only, "pk" positional-or-keyword, "va" *args,   *)
 (*         "ko" keyword-only, "vk" **kwargs;  dflt = has a default.        *)
-(* The i-th parameter is NAMED Names[i]; keywords are names.  "z" is a     *)
-(* name that no parameter has.                                             *)
+(* Names are distinct strings; keywords are names.  For C05 the i-th       *)
+(* parameter is called Names[i] and "z" is a name that no parameter has.   *)
 (*                                                                         *)
 (* A call is                                                               *)
 (*    f(1, .., pos,  *STAR,  1, .., post,  k1=0, .., **DSTAR)              *)
@@ -49,6 +49,7 @@ ValidSig(sig) ==
     /\ Cardinality({i \in DOMAIN sig : sig[i].kind = "va"}) <= 1
     /\ Cardinality({i \in DOMAIN sig : sig[i].kind = "vk"}) <= 1
     /\ \A i \in DOMAIN sig : sig[i].kind \in {"va", "vk"} => ~sig[i].dflt
+    /\ \A i, j \in DOMAIN sig : i # j => sig[i].name # sig[j].name
     /\ \A i, j \in DOMAIN sig :
          (i < j /\ sig[i].kind \in {"po", "pk"} /\ sig[j].kind \in {"po", "pk"} /\ sig[i].dflt) => sig[j].dflt
 
@@ -73,13 +74,13 @@ Has(sig, k) == \E i \in DOMAIN sig : sig[i].kind = k
 PositionalSlots(sig) == {i \in DOMAIN sig : sig[i].kind \in {"po", "pk"}}     \* these are 1..k (ValidSig)
 KeywordSlots(sig) == {i \in DOMAIN sig : sig[i].kind \in {"pk", "ko"}}
 FilledPositionally(sig, cc) == {i \in PositionalSlots(sig) : i <= cc.npos}
-FilledByKeyword(sig, cc) == {i \in KeywordSlots(sig) : Names[i] \in cc.kws}
+FilledByKeyword(sig, cc) == {i \in KeywordSlots(sig) : sig[i].name \in cc.kws}
 
 RefBinds(sig, cc) ==
     /\ ~cc.dup
     /\ (cc.npos > Cardinality(PositionalSlots(sig)) => Has(sig, "va"))
     /\ FilledPositionally(sig, cc) \cap FilledByKeyword(sig, cc) = {}
-    /\ \A k \in cc.kws : (\E i \in KeywordSlots(sig) : Names[i] = k) \/ Has(sig, "vk")
+    /\ \A k \in cc.kws : (\E i \in KeywordSlots(sig) : sig[i].name = k) \/ Has(sig, "vk")
     /\ \A i \in DOMAIN sig :
          (sig[i].kind \in {"po", "pk", "ko"} /\ ~sig[i].dflt)
             => i \in FilledPositionally(sig, cc) \cup FilledByKeyword(sig, cc)
@@ -102,7 +103,7 @@ Expand(call, e) ==
 NoExpansion == [n |-> 0, K |-> {}]
 
 \* the key names a dict[str, int] is expanded over: every name that can matter
-ExpNames(c) == {Names[i] : i \in DOMAIN c.sig} \cup ToSet(c.call.kws) \cup {Extra}
+ExpNames(c) == {c.sig[i].name : i \in DOMAIN c.sig} \cup ToSet(c.call.kws) \cup {Extra}
 
 Expansions(c, maxexp, nonempty) ==
     LET lo == IF nonempty THEN 1 ELSE 0
@@ -118,8 +119,15 @@ Expansions(c, maxexp, nonempty) ==
 (***************************************************************************)
 RefConcreteAgrees(c, accepted) == accepted <=> RefBinds(c.sig, Expand(c.call, NoExpansion))
 
+\* The property enumerates expansions "up to length 4".  A signature with more than 4 required
+\* parameters cannot be bound by any expansion that short, so the EXISTENTIAL clause enumerates up to
+\* max(maxexp, number of parameters) -- otherwise `def f(a, b, c, d, e): ...; f(*xs)` would count as
+\* "accepted although no expansion binds", which is an artefact of the bound, not of the checker.
+\* The universal clause (rejected => no non-empty expansion binds) keeps the stated bound.
+ExpBound(c, maxexp) == IF Len(c.sig) > maxexp THEN Len(c.sig) ELSE maxexp
+
 RefAcceptSound(c, accepted, maxexp) ==
-    accepted => \E e \in Expansions(c, maxexp, FALSE) : RefBinds(c.sig, Expand(c.call, e))
+    accepted => \E e \in Expansions(c, ExpBound(c, maxexp), FALSE) : RefBinds(c.sig, Expand(c.call, e))
 
 RefRejectSound(c, accepted, maxexp) ==
     ~accepted => \A e \in Expansions(c, maxexp, TRUE) : ~RefBinds(c.sig, Expand(c.call, e))
